@@ -705,12 +705,20 @@ def rule_r9(ctx) -> List[R.Inst]:
                             "the generated allow-list is not (fields of all bases) + (own declared fields)",
                             construct=unparse(rets[0].value)[:160] if rets else "no return"))
     q = SERIES + ".from_series"
-    fn = M.fn(q)
+    fn = M.nfn(q, subst=True)      # locals bound once (the row dict, the allow-list) put back into the expression
     file, line = fn_loc(M, q)
     txt = unparse(fn.node)
+    def _allow_list(e):
+        """cls._from_series_allowed_names(), or a local bound once to it (looked up once per row instead of once per label)"""
+        if isinstance(e, ast.Name):
+            ds = [x.value for x in walk_no_nested(fn.node) if isinstance(x, ast.Assign) and len(x.targets) == 1 and
+                  isinstance(x.targets[0], ast.Name) and x.targets[0].id == e.id]
+            return len(ds) == 1 and _allow_list(ds[0])
+        return isinstance(e, ast.Call) and not e.args and isinstance(e.func, ast.Attribute) and \
+            e.func.attr == "_from_series_allowed_names" and isinstance(e.func.value, ast.Name) and e.func.value.id in ("cls", "self")
     filt = any(isinstance(n, ast.DictComp) and n.generators[0].ifs and
-               "_from_series_allowed_names()" in unparse(n.generators[0].ifs[0]) and
-               isinstance(n.generators[0].ifs[0], ast.Compare) and isinstance(n.generators[0].ifs[0].ops[0], ast.In)
+               isinstance(n.generators[0].ifs[0], ast.Compare) and isinstance(n.generators[0].ifs[0].ops[0], ast.In) and
+               _allow_list(n.generators[0].ifs[0].comparators[0])
                for n in ast.walk(fn.node))
     def _kv(n):
         # {k: v for k, v in <items>}: key and value are the two unpacked names themselves, whatever they are called
